@@ -2,7 +2,7 @@
    Full-strength statement: C05 (see DESIGN.md section 7) (Cluster/Statements.v). Proved so far: the theorems below; what is
    not yet proved is decided on every run by the lock-step co-simulation (model = implementation on every
    explored schedule) together with the monitors run on the implementation's own observations. *)
-From RaftV Require Import Cluster.Statements Proofs.RVSpec Proofs.AESpec.
+From RaftV Require Import Cluster.Statements Proofs.RVSpec Proofs.AESpec Proofs.ReadSpec.
 Open Scope N_scope.
 
 (* becomeFollower (every term change, every step-down) never touches the commit index, the applied index, the
@@ -10,3 +10,18 @@ Open Scope N_scope.
 Theorem C05_step_down_frame : forall now n l t, vol (become_follower now n l t) = vol n.
 Proof. exact vol_become_follower. Qed.
 Print Assumptions C05_step_down_frame.
+
+(* readOnlyLoop, for every node state: a result it produces answers a pending read-only operation of a LEADER that has
+   committed an entry of its term; the operation's read index has been applied; a linearizable read has been
+   verified by a heartbeat round started after it was submitted (try_apply_ro, fix D4); the value is the state
+   machine's current state; a lease-based read gets a value only while the lease is valid, otherwise ErrInvalidLease. *)
+Theorem C05_read_only_loop_spec : forall now n x,
+  In x (n_results (lp_ro now n)) ->
+  In x (n_results n) \/
+  exists o, In o (n_ro n) /\ fst x = ro_fid o /\
+    n_role n = Leader /\ committed_this_term n = true /\ ro_read_index o <= n_applied n /\
+    (ro_type o = OLinearizable -> ro_verified o = true) /\
+    (snd x = FRead (ro_payload o) (N.of_nat (length (n_fsm n))) /\ (ro_type o = OLease -> now < n_lease n)
+     \/ snd x = FInvalidLease /\ ro_type o = OLease /\ n_lease n <= now).
+Proof. exact lp_ro_spec. Qed.
+Print Assumptions C05_read_only_loop_spec.
